@@ -41,6 +41,9 @@ ascii_text = st.one_of(
     _plain,
     st.builds(lambda a, t, b: (a + t + b)[:80], _pad, st.text(alphabet="ABCxyz019_-+. ", min_size=0, max_size=20), _pad),
     st.sampled_from(["", " ", "  ", "J0534+2200", "B0531 ", " B0531", "PSR J1 ", "a b", "\tx", "x\t"]),
+    # names that quote header keywords, as observers' file names do (scan_fch1_1500_nchans16_tsamp64.raw)
+    st.sampled_from(["scan_fch1_1500_nchans16_tsamp64_nbits8.raw", "refdm", "tstart", "x_src_raj_src_dej_az_start", "nifs foff ibeam",
+                     "HEADER_END", "HEADER_START", "source_name", "data_type machine_id telescope_id barycentric"]),
 )
 u32 = st.one_of(st.integers(0, 2**32 - 1), st.sampled_from([0, 1, 255, 256, 65535, 2**31, 2**32 - 1]))
 finite_d = st.one_of(
